@@ -4,6 +4,7 @@ import subprocess, re
 from ..common import pmap, run_model
 from ..pyparse import py_parse_obj, parse_req
 from ..findings import still_fails
+from .. import speccases as S
 from .. import progs, features
 
 ID = "C01"
@@ -74,11 +75,21 @@ def run(ctx):
             ctx.violation("valid C11 feature program rejected: %s on %r" % (r, t[:140]), {"kind": "text", "text": t}, classify)
     ctx.count(len(features.PROGRAMS), nontrivial_keys=features.PROGRAMS)
     ctx.extra["gcc_spec_drift"] = drift
+    # translation units generated over the inductive types of TransUnit.parse_translation_unit; the expected
+    # FileAST is the right-hand side of that theorem (a function of the grammar tree, no parser involved):
+    # the real parser must accept them AND return exactly that tree (and so must the model)
+    if ctx.model_available:
+        tu = S.fetch([("c01", "tu", str(ctx.seed), "400" if ctx.quick() else "8000", "2", "3"),
+                      ("c01", "tu", str(ctx.seed + 5), "100" if ctx.quick() else "2000", "3", "4")])
+        ctx.rule("random translation units over the inductive types of the theorem C01.wellformed_translation_units_are_accepted (file-scope declarations, function definitions with and without prototype parameter lists, bodies mixing declarations and statements of depth <= 3, expressions of depth <= 3): the real parser must return exactly the FileAST on the theorem's right-hand side")
+        S.check_against_spec(ctx, tu, "C01-translation-unit")
     ctx.sample({"kind": "feature-program", "text": features.PROGRAMS[7]})
     ctx.sample({"kind": "spec-rendered", "text": texts[len(texts) // 2]})
 
 
 def replay(ctx, payload):
+    if payload["input"].get("kind") == "spec":
+        return S.replay_spec(ctx, payload)
     r = accepts(payload["input"]["text"])
     print("real parser:", "accepted" if r is None else r)
     return r is None
